@@ -301,6 +301,13 @@ func (env *Env) selector(x *ast.SelectorExpr) Val {
 				}
 				env.fail(x.Pos(), "unknown ghost variable %s", x.Sel.Name)
 			}
+			if id.Name == "call" && strings.HasPrefix(x.Sel.Name, "arg") {
+				// arguments of the call a "before call F#*" item is attached to
+				if v, ok := env.st.spec["call."+x.Sel.Name]; ok {
+					return v
+				}
+				env.fail(x.Pos(), "unknown name %q (no such argument at this call)", "call."+x.Sel.Name)
+			}
 			_, isName := env.names[id.Name]
 			_, isSpec := env.st.spec[id.Name]
 			_, isBound := env.bound[id.Name]
